@@ -160,6 +160,22 @@ def make_start(lb, ub, rng: np.random.Generator, where: str):
     return np.clip(x, lb, ub)
 
 
+# seeds of the cosmix family on which an iteration whose pair fails the curvature test is immediately followed by a line search that finds
+# no decrease while the memory holds pairs (memory reset): about one run in 3000; found by searching 30 000 seeds
+RESET_CORPUS = [2395, 8095, 8982, 13248, 14512, 15086, 18239, 24406, 25901, 29073]
+
+
+def reset_corpus_cases(monitors, extra_seeds=()):
+    """scenario cases (shellprops format) on the corpus and on fresh seeds of the family"""
+    out = []
+    for cs in list(RESET_CORPUS) + list(extra_seeds):
+        out.append({"seed": cs, "monitors": monitors, "families": ["cosmix"], "small_budgets": False,
+                    "features": {"jac": "callable", "callback": "false", "ftarget": "none", "gtol_callable": False, "scaler": "none", "update": "none",
+                                 "mutating_user": False, "bounds_spelling": "array"},
+                    "override": {"maxcor": 5, "maxls": cosmix_problem(cs)[1], "maxiter": 60, "maxfun": 15000, "ftol": 1e-5, "gtol": 1e-5}})
+    return out
+
+
 def cosmix_problem(seed: int):
     """small non-convex problems (sum of cosines of linear forms plus a weak quadratic, in a box) on which short line searches fail now
     and then; returns the problem and the number of trials per search drawn with it. A corpus of seeds on which a rejected pair is
